@@ -17,7 +17,7 @@ EXPLANATION = (
     "constant key length per obligation group."
 )
 ASSUMPTIONS = [
-    "KMAC/KMACA: checked as 'customised XOF named KMAC applied to the key then the message' for output lengths other than 32 (plain-assertion groups over specification stubs); the pre-computed initial block used for the default length 32 is not compared with p^12 of its IV block here",
+    "KMAC/KMACA: checked as 'customised XOF named KMAC applied to the key then the message' (plain-assertion groups over specification stubs); the pre-computed initial block used for the default length 32 is a concrete obligation (table == p^12 of the specified IV block, per state encoding), and in the length-32 composition groups the abstract permutation is instantiated at that one IV block with the reference permutation (assumption justified by C08)",
     "HMAC groups are plain-assertion groups: the contract postcondition is asserted by the harness instead of being enforced through DFCC (its write-set instrumentation of these long compositions yields >10^7 clauses); the frame comes from exactly-sized buffers",
     "HMAC key lengths are enumerated (quick: 0,1,31,32,33,63,64,65,100; thorough: 0..66,100,1000), messages are 'any length above 64' (identity summary) or the constants 0 and 5",
     "specification stubs for ascon_xof(a)_absorb/squeeze, ascon_hash(a)_init/reinit and ascon_permute stand for the contracts enforced under C03/C07/C08",
@@ -38,4 +38,5 @@ def groups(tier):
         hm = [g for g in hm if not (g.functions[0] in ("ascon_hmac", "ascon_hmaca") and not (".key0.in5" in g.name or ".key65.long" in g.name))]
     gs += hm
     gs += common.cxof_kdf_groups("c04", ["C04"], ["kmac"], tier=tier)
+    gs += common.kmac_table_groups("c04", ["C04"], cfgs=("C64",) if tier == "quick" else ("C64", "C32", "DX"))
     return gs
